@@ -375,7 +375,7 @@ func newConverter(w *world.World) *utils.Converter {
 func init() {
 	Register(&sim.Check{
 		ID: "C20", Level: "exploration", Run: runC20,
-		Rule: "after a short history, 3-8 structurally mutated but protobuf-/XML-well-formed messages per run reach the running system from its peers: TransactionSet requests (path elements dropped/duplicated/renamed/nil, keys on non-lists, missing or empty keys, values of the wrong kind for the leaf type incl. nil, nil arrays, nil decimal/identityref, odd JSON shapes, scalars as JSON blobs, odd intent names and priorities, nil intents, replace intents), GetData requests (same path mutations x store/type/encoding incl. an undefined encoding), device notifications through the conversion functions Sync uses, and NETCONF get-config replies (unknown tags, missing keys, wrong namespaces, bad numbers) through the real ncTarget.Get and XML adapter. Oracle: every call returns (value or error) within 60 simulated seconds, nothing panics (a panic in a handler is a violation because the gRPC chain has no recovery), the worker process survives. Every call is non-trivial; distinct = (call kind, mutations, node).",
+		Rule: "after a short history, 3-8 structurally mutated but protobuf-/XML-well-formed messages per run reach the running system from its peers: TransactionSet requests (path elements dropped/duplicated/renamed/nil, keys on non-lists, missing or empty keys, values of the wrong kind for the leaf type incl. nil, nil arrays, nil decimal/identityref, odd JSON shapes, scalars as JSON blobs, odd intent names and priorities, nil intents, replace intents), GetData requests (same path mutations x store/type/encoding incl. an undefined encoding), device notifications through the conversion functions Sync uses, NETCONF get-config replies (unknown tags, missing keys, wrong namespaces, bad numbers) through the real ncTarget.Get and XML adapter, odd JSON documents (zero bytes, null, {}, [], truncated, odd shapes) at ancestors, and garbled Subscribe, WatchDeviations, Confirm and Cancel requests. Oracle: every call returns (value or error) within 60 simulated seconds, nothing panics (a panic in a handler is a violation because the gRPC chain has no recovery), the worker process survives. Every call is non-trivial; distinct = (call kind, mutations, node).",
 		Real: append(append([]string{}, realCore...), "pkg/server handlers, pkg/utils converter, pkg/datastore/target/nc.go Get + netconf XML2sdcpbConfigAdapter"), Stub: append(append([]string{}, stubCore...), "netconf.Driver (serves the garbled reply)"),
 		Assume:           []string{"byte-level parser fuzzing of ParsePath/JSON/XML on arbitrary strings is out of scope (a fuzzing target, not a simulation target); messages are well-formed at the protobuf/XML level"},
 		CrashIsViolation: true, HangIsViolation: true,
